@@ -8,7 +8,8 @@
 # A leg that cannot be built or run is "skipped" with the reason - never a verdict.
 set -u
 ID=$1; OUT=$2; TIER=${3:-thorough}
-V=/verif
+V="${PV_DIR:-/verif}"
+REPO="${PV_REPO:-/repo}"
 SAN=$V/.build/san; mkdir -p "$SAN"; rm -f "$SAN"/*.log "$SAN"/*.leg 2>/dev/null
 export CARGO_NET_OFFLINE=true CARGO_TERM_COLOR=never
 SEED=${VERIF_SEED:-0}
@@ -25,7 +26,7 @@ EOF
 first_frames() { # reports file... -> distinct first in-repo frames (only when there are reports)
   [ "$1" -gt 0 ] 2>/dev/null || return 0
   shift
-  grep -hoE "(/repo/src/[A-Za-z0-9_/]+\.rs:[0-9]+|packing::[A-Za-z0-9_:<>]+)" "$@" 2>/dev/null | sed -E 's/:[0-9]+$//' | sort | uniq -c | sort -rn | head -5 | awk '{print $2}'
+  grep -hoE "(/src/[A-Za-z0-9_/]+\.rs:[0-9]+|packing::[A-Za-z0-9_:<>]+)" "$@" 2>/dev/null | sed -E 's/:[0-9]+$//' | sort | uniq -c | sort -rn | head -5 | awk '{print $2}'
 }
 
 miri_leg() { # name extra-flags mode threads steps nshards
@@ -52,7 +53,7 @@ tsan_build() { # dir manifestdir bin
 
 tsan_cli_leg() {
   local name=tsan-cli log=$SAN/tsan-cli.log; : > "$log"
-  if ! tsan_build tsan /repo packing; then leg $name skipped 0 0 "tsan build of the packing binary" "$SAN/tsan.build.log" "ThreadSanitizer build failed"; return; fi
+  if ! tsan_build tsan "$REPO" packing; then leg $name skipped 0 0 "tsan build of the packing binary" "$SAN/tsan.build.log" "ThreadSanitizer build failed"; return; fi
   local exe=$V/.build/tsan/$TARGET/release/packing n=0
   for args in "--replications 16 --steps 300 p2 polygon --sides 4" "--replications 12 --steps 200 -p LJ p2mg trimer" "--replications 16 --steps 200 --inner-steps 50 p1g1 trimer" "--replications 10 --steps 300 p2gg circle"; do
     for th in 2 8 16; do
